@@ -1,1 +1,558 @@
-(* placeholder: proofs are being written *)
+(* C08: the generator's constants cache never changes a result.
+   Purely structural: no law of the numeric interface is used anywhere. *)
+From Coq Require Import List ZArith NArith Bool Arith String Lia.
+From CE Require Import Num Str TableTypes TableModel Comp Mz Peak Poisson Brain BrainSpec.
+Import ListNotations.
+Local Open Scope nat_scope.
+
+(* ---- generic list facts ---- *)
+Lemma fold_left_ext_in {A B} (f g : A -> B -> A) (l : list B) :
+  (forall a x, In x l -> f a x = g a x) -> forall a, fold_left f l a = fold_left g l a.
+Proof.
+  induction l as [|x l IH]; intros H a; cbn [fold_left]; [reflexivity|].
+  rewrite (H a x (or_introl eq_refl)). apply IH. intros a' y Hy. apply H. right. exact Hy.
+Qed.
+
+(* ---- the shape of the coefficient vector does not depend on the numeric interpretation ---- *)
+Section Shape.
+Context {F : Type} (N : Num F) {G : Type} (M : Num G).
+
+Lemma coeffs_loop_shape : forall e wm is_ (acc : list F) (acc' : list G),
+  List.length acc = List.length acc' ->
+  option_map (@List.length F) (coeffs_loop N e wm is_ acc)
+  = option_map (@List.length G) (coeffs_loop M e wm is_ acc').
+Proof.
+  intros e wm is_. induction is_ as [|i rest IH]; intros acc acc' Hl; cbn [coeffs_loop].
+  - cbn [option_map]. f_equal. exact Hl.
+  - destruct (Z.of_nat (List.length (isos e)) + Z.of_N (number e) - Z.of_nat i - 1 <? 0)%Z; [reflexivity|].
+    destruct (assoc_get _ (isos e)) as [iso|]; [|apply IH; exact Hl].
+    destruct (max_shift e - TableModel.shift iso <? 0)%Z; [reflexivity|].
+    rewrite <- Hl.
+    destruct (Nat.compare (Z.to_nat (max_shift e - TableModel.shift iso)) (List.length acc)).
+    + apply IH. rewrite !app_length. cbn [List.length]. lia.
+    + reflexivity.
+    + apply IH. rewrite !app_length, !repeat_length. cbn [List.length]. lia.
+Qed.
+
+Lemma coeffs_shape e wm :
+  option_map (@List.length F) (coeffs N e wm) = option_map (@List.length G) (coeffs M e wm).
+Proof. unfold coeffs. apply coeffs_loop_shape. reflexivity. Qed.
+End Shape.
+
+Section Cache.
+Context {F : Type} (N : Num F).
+Local Notation len := (@List.length F).
+
+(* ---- prefix stability of the power sums ---- *)
+Lemma nthF_pad (base : list F) m j : nthF N (base ++ repeat (zero N) m) j = nthF N base j.
+Proof.
+  unfold nthF. destruct (lt_dec j (len base)) as [Hlt|Hge].
+  - apply app_nth1. exact Hlt.
+  - rewrite app_nth2 by lia. rewrite nth_repeat. rewrite nth_overflow by lia. reflexivity.
+Qed.
+
+Lemma ps_next_ext (esp esp' ps ps' : list F) k :
+  (forall j, nthF N esp j = nthF N esp' j) ->
+  (forall i, i < k -> nthF N ps i = nthF N ps' i) ->
+  ps_next N esp ps k = ps_next N esp' ps' k.
+Proof.
+  intros He Hp. destruct k as [|k]; [reflexivity|]. unfold ps_next.
+  match goal with |- ?L = ?R =>
+    match L with context [fold_left ?f ?l ?a] =>
+      match R with context [fold_left ?g l a] =>
+        replace (fold_left f l a) with (fold_left g l a) end end end.
+  - destruct (fold_left _ _ _) as [tmp sign]. rewrite He. reflexivity.
+  - apply fold_left_ext_in. intros [t s] j Hj. apply in_seq in Hj.
+    rewrite He. rewrite (Hp (S k - j)) by lia. reflexivity.
+Qed.
+
+Fixpoint cps (base : list F) (n : nat) : list F :=
+  match n with
+  | O => []
+  | S n' => cps base n' ++ [ps_next N base (cps base n') n']
+  end.
+
+Lemma cps_length base n : len (cps base n) = n.
+Proof. induction n as [|n IH]; cbn [cps]; [reflexivity|]. rewrite app_length, IH. cbn [List.length]. lia. Qed.
+
+Lemma extend_cps base m : forall fuel n,
+  n <= len (base ++ repeat (zero N) m) -> len (base ++ repeat (zero N) m) - n <= fuel ->
+  extend_ps N fuel (base ++ repeat (zero N) m) (cps base n) = cps base (len (base ++ repeat (zero N) m)).
+Proof.
+  set (esp := base ++ repeat (zero N) m).
+  induction fuel as [|fuel IH]; intros n Hle Hf; cbn [extend_ps].
+  - replace n with (len esp) by lia. reflexivity.
+  - rewrite cps_length. destruct (Nat.ltb_spec n (len esp)) as [Hlt|Hge].
+    + replace (cps base n ++ [ps_next N esp (cps base n) n]) with (cps base (S n)).
+      * apply IH; lia.
+      * cbn [cps]. f_equal. f_equal. apply ps_next_ext.
+        -- intro j. symmetry. apply nthF_pad.
+        -- reflexivity.
+    + replace n with (len esp) by lia. reflexivity.
+Qed.
+
+Lemma update_cps base m n :
+  n <= len (base ++ repeat (zero N) m) ->
+  update_ps N (base ++ repeat (zero N) m) (cps base n) = cps base (len (base ++ repeat (zero N) m)).
+Proof. intro H. unfold update_ps. apply extend_cps; lia. Qed.
+
+Lemma cps_prefix base n n' : n <= n' -> exists t, cps base n' = cps base n ++ t.
+Proof.
+  induction 1 as [|n' Hle [t IH]].
+  - exists []. rewrite app_nil_r. reflexivity.
+  - cbn [cps]. rewrite IH. rewrite <- app_assoc. eexists. reflexivity.
+Qed.
+
+Lemma cps_nth base n n' k : k < n -> n <= n' -> nthF N (cps base n) k = nthF N (cps base n') k.
+Proof.
+  intros Hk Hle. destruct (cps_prefix base n n' Hle) as [t Ht]. rewrite Ht. unfold nthF.
+  rewrite app_nth1; [reflexivity|]. rewrite cps_length. exact Hk.
+Qed.
+
+Lemma cps_nth2 base n n' k : k < n -> k < n' -> nthF N (cps base n) k = nthF N (cps base n') k.
+Proof.
+  intros H1 H2. destruct (le_ge_dec n n') as [Hle|Hge].
+  - apply cps_nth; assumption.
+  - symmetry. apply cps_nth; [assumption|lia].
+Qed.
+
+(* ---- canonical parameters ---- *)
+Definition pvalid (base : list F) (m : nat) (p : params (F:=F)) : Prop :=
+  p_esp p = base ++ repeat (zero N) m /\ p_ps p = cps base (len base + m).
+
+Lemma newton_pvalid base m p o n :
+  pvalid base m p -> pvalid base (m + n) (newton N o (push_zeros N n p)).
+Proof.
+  intros [He Hp]. unfold newton, push_zeros. cbn [p_esp p_ps].
+  rewrite He, Hp, <- app_assoc, <- repeat_app.
+  rewrite cps_length.
+  destruct (Nat.compare_spec (len base + m) (len (base ++ repeat (zero N) (m + n)))) as [E|L|G].
+  - split; cbn [p_esp p_ps]; [reflexivity|].
+    rewrite app_length, repeat_length in E. f_equal. lia.
+  - split; cbn [p_esp p_ps]; [reflexivity|].
+    rewrite update_cps by lia. f_equal. rewrite app_length, repeat_length. lia.
+  - rewrite app_length, repeat_length in G. lia.
+Qed.
+
+Lemma vietes_length (c : list F) : len (vietes N c) = len c.
+Proof. unfold vietes. rewrite map_length, seq_length. reflexivity. Qed.
+
+Lemma fresh_pvalid (c : list F) o : c <> [] ->
+  pvalid (vietes N c) 0 (newton N o (mkParams (vietes N c) [])).
+Proof.
+  intro Hne. unfold newton. cbn [p_esp p_ps List.length].
+  destruct (Nat.compare_spec 0 (len (vietes N c))) as [E|L|G].
+  - rewrite vietes_length in E. destruct c; [congruence|discriminate].
+  - split; cbn [p_esp p_ps]; [rewrite app_nil_r; reflexivity|].
+    pose proof (update_cps (vietes N c) 0 0) as H. cbn [repeat cps] in H. rewrite app_nil_r in H.
+    rewrite H by lia. f_equal. lia.
+  - lia.
+Qed.
+
+(* ---- canonical per-element constants ---- *)
+Definition valid (e : elem) (p : phi (F:=F)) : Prop :=
+  exists ca cm m,
+    coeffs N e false = Some ca /\ coeffs N e true = Some cm /\
+    len ca = len cm /\ (max_shift e < Z.of_nat (len ca))%Z /\
+    pvalid (vietes N ca) m (ph_el p) /\ pvalid (vietes N cm) m (ph_mass p) /\
+    ph_sym p = sym e /\
+    ((ph_order p = max_shift e /\ m = 0) \/ ph_order p = Z.of_nat (len ca + m)).
+
+Lemma fresh_valid e : brain_elem_ok e = true ->
+  exists p, phi_from_element N e = Some p /\ valid e p.
+Proof.
+  unfold brain_elem_ok. intro H.
+  pose proof (coeffs_shape N NumUnit e false) as Sa. pose proof (coeffs_shape N NumUnit e true) as Sm.
+  destruct (coeffs NumUnit e false) as [ua|]; [|discriminate].
+  destruct (coeffs NumUnit e true) as [um|]; [|discriminate].
+  destruct (coeffs N e false) as [ca|] eqn:Ea; [|discriminate].
+  destruct (coeffs N e true) as [cm|] eqn:Em; [|discriminate].
+  cbn [option_map] in Sa, Sm. injection Sa as Sa. injection Sm as Sm.
+  apply andb_prop in H. destruct H as [H H3]. apply andb_prop in H. destruct H as [H1 H2].
+  apply Nat.ltb_lt in H1. apply Nat.eqb_eq in H2. apply Z.leb_le in H3.
+  assert (Hna : ca <> []) by (intro X; subst ca; cbn in Sa; lia).
+  assert (Hnm : cm <> []) by (intro X; subst cm; cbn in Sm; lia).
+  unfold phi_from_element, params_from_element. rewrite Ea, Em.
+  destruct ca as [|a0 ca']; [congruence|]. destruct cm as [|m0 cm']; [congruence|].
+  eexists. split; [reflexivity|].
+  exists (a0 :: ca'), (m0 :: cm'), 0.
+  split; [exact Ea|]. split; [exact Em|]. split; [lia|]. split; [lia|].
+  cbn [ph_el ph_mass ph_sym ph_order].
+  split; [apply fresh_pvalid; exact Hna|]. split; [apply fresh_pvalid; exact Hnm|].
+  split; [reflexivity|]. left. split; reflexivity.
+Qed.
+
+Lemma pvalid_ps_len base m p : pvalid base m p -> len (p_ps p) = len base + m.
+Proof. intros [_ Hp]. rewrite Hp. apply cps_length. Qed.
+Lemma pvalid_esp_len base m p : pvalid base m p -> len (p_esp p) = len base + m.
+Proof. intros [He _]. rewrite He, app_length, repeat_length. reflexivity. Qed.
+
+Lemma valid_order_le e p : valid e p ->
+  (ph_order p <= Z.of_nat (len (p_ps (ph_el p))))%Z /\ (ph_order p <= Z.of_nat (len (p_ps (ph_mass p))))%Z.
+Proof.
+  intros (ca & cm & m & _ & _ & Hl & Hms & Va & Vm & _ & Ho).
+  rewrite (pvalid_ps_len _ _ _ Va), (pvalid_ps_len _ _ _ Vm), !vietes_length.
+  destruct Ho as [[Ho Hm]|Ho]; lia.
+Qed.
+
+Lemma update_valid e p o : valid e p -> valid e (phi_update N o p).
+Proof.
+  intros V. unfold phi_update. destruct (o <? ph_order p)%Z eqn:Eo; [exact V|].
+  apply Z.ltb_ge in Eo.
+  destruct V as (ca & cm & m & Ea & Em & Hl & Hms & Va & Vm & Hs & Ho).
+  set (n := Z.to_nat (o + 1 - ph_order p)).
+  exists ca, cm, (m + n). cbn [ph_el ph_mass ph_sym ph_order].
+  split; [exact Ea|]. split; [exact Em|]. split; [exact Hl|]. split; [exact Hms|].
+  split; [apply newton_pvalid; exact Va|]. split; [apply newton_pvalid; exact Vm|].
+  split; [exact Hs|]. right.
+  unfold push_zeros. cbn [p_esp]. rewrite app_length, repeat_length.
+  rewrite (pvalid_esp_len _ _ _ Va), vietes_length. lia.
+Qed.
+
+Lemma update_order e p o : valid e p -> (o < ph_order (phi_update N o p))%Z.
+Proof.
+  intros V. unfold phi_update. destruct (o <? ph_order p)%Z eqn:Eo; [apply Z.ltb_lt; exact Eo|].
+  apply Z.ltb_ge in Eo. cbn [ph_order]. unfold push_zeros. cbn [p_esp].
+  rewrite app_length, repeat_length.
+  destruct V as (ca & cm & m & _ & _ & Hl & Hms & Va & _ & _ & Ho).
+  rewrite (pvalid_esp_len _ _ _ Va), vietes_length.
+  destruct Ho as [[Ho Hm]|Ho]; lia.
+Qed.
+
+Lemma update_sym o p : ph_sym (phi_update N o p) = ph_sym p.
+Proof. unfold phi_update. destruct (o <? ph_order p)%Z; reflexivity. Qed.
+
+(* two canonical constants of one element agree wherever both are defined *)
+Lemma valid_agree e p p' k : valid e p -> valid e p' ->
+  k < len (p_ps (ph_el p)) -> k < len (p_ps (ph_el p')) ->
+  k < len (p_ps (ph_mass p)) -> k < len (p_ps (ph_mass p')) ->
+  nthF N (p_ps (ph_el p)) k = nthF N (p_ps (ph_el p')) k /\
+  nthF N (p_ps (ph_mass p)) k = nthF N (p_ps (ph_mass p')) k.
+Proof.
+  intros (ca & cm & m & Ea & Em & _ & _ & Va & Vm & _ & _)
+         (ca' & cm' & m' & Ea' & Em' & _ & _ & Va' & Vm' & _ & _).
+  rewrite Ea in Ea'. injection Ea' as <-. rewrite Em in Em'. injection Em' as <-.
+  rewrite (pvalid_ps_len _ _ _ Va), (pvalid_ps_len _ _ _ Va'), (pvalid_ps_len _ _ _ Vm), (pvalid_ps_len _ _ _ Vm').
+  destruct Va as [_ ->], Va' as [_ ->], Vm as [_ ->], Vm' as [_ ->].
+  intros. split; apply cps_nth2; assumption.
+Qed.
+
+(* ---- lookups ---- *)
+Lemma get_phi_map o (cs : list (phi (F:=F))) s :
+  get_phi (map (phi_update N o) cs) s = option_map (phi_update N o) (get_phi cs s).
+Proof.
+  unfold get_phi. induction cs as [|c cs IH]; cbn [map find]; [reflexivity|].
+  rewrite update_sym. destruct (String.eqb (ph_sym c) s); [reflexivity|exact IH].
+Qed.
+
+Lemma get_phi_app (l l2 : list (phi (F:=F))) s :
+  get_phi (l ++ l2) s = match get_phi l s with Some x => Some x | None => get_phi l2 s end.
+Proof.
+  unfold get_phi. induction l as [|c l IH]; cbn [app find]; [reflexivity|].
+  destruct (String.eqb (ph_sym c) s); [reflexivity|exact IH].
+Qed.
+
+Lemma get_phi_some (l : list (phi (F:=F))) s p : get_phi l s = Some p -> In p l /\ ph_sym p = s.
+Proof.
+  unfold get_phi. intro H. apply find_some in H. destruct H as [H1 H2].
+  split; [exact H1|]. apply String.eqb_eq. exact H2.
+Qed.
+
+Lemma psum_agree (cs cs' : list (phi (F:=F))) s e p p' o k :
+  get_phi cs s = Some p -> get_phi cs' s = Some p' -> valid e p -> valid e p' ->
+  (Z.of_nat k <= o)%Z ->
+  psum N (map (phi_update N o) cs) s k = psum N (map (phi_update N o) cs') s k /\
+  psum_mass N (map (phi_update N o) cs) s k = psum_mass N (map (phi_update N o) cs') s k.
+Proof.
+  intros G G' V V' Hk. unfold psum, psum_mass. rewrite !get_phi_map, G, G'. cbn [option_map].
+  pose proof (update_valid e p o V) as W. pose proof (update_valid e p' o V') as W'.
+  pose proof (update_order e p o V) as O. pose proof (update_order e p' o V') as O'.
+  destruct (valid_order_le _ _ W) as [A B]. destruct (valid_order_le _ _ W') as [A' B'].
+  set (q := phi_update N o p) in *. set (q' := phi_update N o p') in *.
+  assert (K1 : k < len (p_ps (ph_el q))) by lia.
+  assert (K2 : k < len (p_ps (ph_el q'))) by lia.
+  assert (K3 : k < len (p_ps (ph_mass q))) by lia.
+  assert (K4 : k < len (p_ps (ph_mass q'))) by lia.
+  destruct (valid_agree e q q' k W W' K1 K2 K3 K4) as [E1 E2].
+  apply Nat.ltb_lt in K1, K2, K3, K4. rewrite K1, K2, K3, K4, E1, E2. split; reflexivity.
+Qed.
+
+(* ---- everything downstream reads the constants through psum / psum_mass at 1..order only ---- *)
+Definition agree (cs cs' : list (phi (F:=F))) (c : bcomp) (o : nat) : Prop :=
+  forall en k, In en c -> 1 <= k <= o ->
+    psum N cs (sym (fst en)) k = psum N cs' (sym (fst en)) k /\
+    psum_mass N cs (sym (fst en)) k = psum_mass N cs' (sym (fst en)) k.
+
+Lemma phi_for_ext cs cs' c o k : agree cs cs' c o -> 1 <= k <= o ->
+  phi_for N cs c k = phi_for N cs' c k.
+Proof.
+  intros H Hk. unfold phi_for. apply fold_left_ext_in. intros a en Hin.
+  rewrite (proj1 (H en k Hin Hk)). reflexivity.
+Qed.
+
+Lemma phi_mass_for_ext cs cs' c o el k : agree cs cs' c o -> In el c -> 1 <= k <= o ->
+  phi_mass_for N cs c (fst el) k = phi_mass_for N cs' c (fst el) k.
+Proof.
+  intros H Hel Hk. unfold phi_mass_for. rewrite (proj2 (H el k Hel Hk)).
+  match goal with |- ?L = ?R =>
+    match L with context [fold_left ?f ?l ?a] =>
+      match R with context [fold_left ?g l a] =>
+        replace (fold_left f l a) with (fold_left g l a) end end end.
+  - reflexivity.
+  - apply fold_left_ext_in. intros a en Hin. rewrite (proj1 (H en k Hin Hk)). reflexivity.
+Qed.
+
+Lemma prob_vector_ext cs cs' c o mv base : agree cs cs' c o ->
+  prob_vector N cs c o mv base = prob_vector N cs' c o mv base.
+Proof.
+  intro H. unfold prob_vector.
+  rewrite (map_ext_in (phi_for N cs c) (phi_for N cs' c) (seq 1 o)); [reflexivity|].
+  intros k Hk. apply in_seq in Hk. apply (phi_for_ext cs cs' c o k H). lia.
+Qed.
+
+Lemma center_vector_ext cs cs' c o mv base pv : agree cs cs' c o ->
+  center_vector N cs c o mv base pv = center_vector N cs' c o mv base pv.
+Proof.
+  intro H. unfold center_vector.
+  match goal with |- ?L = ?R =>
+    match L with context [all_some (map ?f c)] =>
+      match R with context [all_some (map ?g c)] =>
+        replace (map f c) with (map g c) end end end.
+  - reflexivity.
+  - apply map_ext_in. intros en Hin.
+    rewrite (map_ext_in (phi_mass_for N cs c (fst en)) (phi_mass_for N cs' c (fst en)) (seq 1 o)); [reflexivity|].
+    intros k Hk. apply in_seq in Hk. apply (phi_mass_for_ext cs cs' c o en k H Hin). lia.
+Qed.
+
+Lemma brain_with_ext cs0 cs0' c oreq base charge carrier :
+  (forall o, (0 <= o)%Z -> agree (map (phi_update N o) cs0) (map (phi_update N o) cs0') c (Z.to_nat o)) ->
+  option_map fst (brain_with N cs0 c oreq base charge carrier)
+  = option_map fst (brain_with N cs0' c oreq base charge carrier).
+Proof.
+  intro H. unfold brain_with.
+  destruct (resolve_order oreq (max_variants c) <? 0)%Z eqn:Eo; [reflexivity|].
+  apply Z.ltb_ge in Eo. specialize (H _ Eo).
+  rewrite (prob_vector_ext _ _ c _ (max_variants c) base H).
+  destruct (prob_vector N _ c _ (max_variants c) base) as [pv|]; [|reflexivity].
+  rewrite (center_vector_ext _ _ c _ (max_variants c) base pv H).
+  destruct (center_vector N _ c _ (max_variants c) base pv) as [cv|]; reflexivity.
+Qed.
+
+Lemma valid_sym e p : valid e p -> ph_sym p = sym e.
+Proof. intros (ca & cm & m & _ & _ & _ & _ & _ & _ & Hs & _). exact Hs. Qed.
+
+Lemma brain_with_cs l c oreq base charge carrier peaks cs :
+  brain_with N l c oreq base charge carrier = Some (peaks, cs) -> exists o, cs = map (phi_update N o) l.
+Proof.
+  unfold brain_with. destruct (resolve_order oreq (max_variants c) <? 0)%Z; [discriminate|].
+  destruct (prob_vector N _ c _ (max_variants c) base) as [pv|]; [|discriminate].
+  destruct (center_vector N _ c _ (max_variants c) base pv) as [cv|]; [|discriminate].
+  intro H. injection H as _ H. eexists. symmetry. exact H.
+Qed.
+
+(* the step of populate_constants_from_cache *)
+Definition co_step (st : option (list (phi (F:=F))) * cache (F:=F)) (en : elem * Z) :=
+  let '(cs, ch) := st in
+  match cs with
+  | None => (None, ch)
+  | Some l =>
+      let '(o, ch') := cache_remove (sym (fst en)) ch in
+      match o with
+      | Some p => (Some (l ++ [p]), ch')
+      | None => (add_const N (Some l) (fst en), ch')
+      end
+  end.
+Lemma checkout_all_eq c ch : checkout_all N c ch = fold_left co_step c (Some [], ch).
+Proof. reflexivity. Qed.
+
+(* with an empty cache, checking out is building from scratch *)
+Lemma fresh_eq : forall c st, snd st = [] ->
+  fold_left co_step c st = (fold_left (fun a en => add_const N a (fst en)) c (fst st), []).
+Proof.
+  induction c as [|en c IH]; intros [cs ch] H; cbn [snd] in H; subst ch; cbn [fold_left fst].
+  - reflexivity.
+  - rewrite IH.
+    + f_equal. f_equal. unfold co_step. destruct cs as [l|]; reflexivity.
+    + unfold co_step. destruct cs as [l|]; reflexivity.
+Qed.
+
+(* ---- invariants relative to a universe of elements in which a symbol names one element ---- *)
+Section Univ.
+Variable U : elem -> Prop.
+Hypothesis U_ok : forall e, U e -> brain_elem_ok e = true.
+Hypothesis U_inj : forall e e', U e -> U e' -> sym e = sym e' -> e = e'.
+
+Definition lst_ok (l : list (phi (F:=F))) : Prop := Forall (fun p => exists e, U e /\ valid e p) l.
+Definition cache_ok (ch : cache (F:=F)) : Prop :=
+  Forall (fun sp => exists e, U e /\ fst sp = sym e /\ valid e (snd sp)) ch.
+
+Lemma lookup_valid l (en : elem * Z) : lst_ok l -> U (fst en) -> get_phi l (sym (fst en)) <> None ->
+  exists p, get_phi l (sym (fst en)) = Some p /\ valid (fst en) p.
+Proof.
+  intros L Uen G. destruct (get_phi l (sym (fst en))) as [p|] eqn:E; [|congruence].
+  exists p. split; [reflexivity|]. apply get_phi_some in E. destruct E as [Hin Hs].
+  unfold lst_ok in L. rewrite Forall_forall in L. destruct (L p Hin) as (e & Ue & V).
+  assert (X : e = fst en). { apply U_inj; [exact Ue|exact Uen|]. rewrite <- (valid_sym e p V). exact Hs. }
+  subst e. exact V.
+Qed.
+
+Lemma lists_agree l l' (c : bcomp) : lst_ok l -> lst_ok l' ->
+  (forall en, In en c -> U (fst en)) ->
+  (forall en, In en c -> get_phi l (sym (fst en)) <> None) ->
+  (forall en, In en c -> get_phi l' (sym (fst en)) <> None) ->
+  forall o, (0 <= o)%Z -> agree (map (phi_update N o) l) (map (phi_update N o) l') c (Z.to_nat o).
+Proof.
+  intros L L' HU Cv Cv' o Ho en k Hin Hk.
+  destruct (lookup_valid l en L (HU en Hin) (Cv en Hin)) as (p & G & V).
+  destruct (lookup_valid l' en L' (HU en Hin) (Cv' en Hin)) as (p' & G' & V').
+  apply (psum_agree l l' _ (fst en) p p' o k G G' V V'). lia.
+Qed.
+
+Lemma cache_remove_ok s : forall ch, cache_ok ch ->
+  cache_ok (snd (cache_remove s ch)) /\
+  (forall p, fst (cache_remove s ch) = Some p -> exists e, U e /\ s = sym e /\ valid e p).
+Proof.
+  induction ch as [|[k v] r IH]; intro H; cbn [cache_remove].
+  - split; [constructor|]. intros p X. discriminate.
+  - inversion H as [|? ? Hkv Hr]; subst. destruct (String.eqb k s) eqn:E.
+    + cbn [fst snd]. split; [exact Hr|]. intros p X. injection X as <-.
+      apply String.eqb_eq in E. subst k. destruct Hkv as (e & Ue & Hs & V). cbn [fst snd] in Hs, V.
+      exists e. split; [exact Ue|]. split; [exact Hs|exact V].
+    + destruct (IH Hr) as [I1 I2]. destruct (cache_remove s r) as [o r']. cbn [fst snd] in *.
+      split; [constructor; assumption|exact I2].
+Qed.
+
+Lemma cache_receive_ok e p : U e -> valid e p ->
+  forall ch, cache_ok ch -> cache_ok (cache_receive (sym e) p ch).
+Proof.
+  intros Ue V. induction ch as [|[k v] r IH]; intro H; cbn [cache_receive].
+  - constructor; [|constructor]. exists e. cbn [fst snd]. split; [exact Ue|]. split; [reflexivity|exact V].
+  - inversion H as [|? ? Hkv Hr]; subst. destruct (String.eqb k (sym e)) eqn:E.
+    + destruct (ph_order p <? ph_order v)%Z; [exact H|].
+      constructor; [|exact Hr]. exists e. cbn [fst snd]. split; [exact Ue|].
+      split; [apply String.eqb_eq; exact E|exact V].
+    + constructor; [exact Hkv|apply IH; exact Hr].
+Qed.
+
+Lemma receive_all_ok : forall cs ch, lst_ok cs -> cache_ok ch ->
+  cache_ok (fold_left (fun a p => cache_receive (ph_sym p) p a) cs ch).
+Proof.
+  induction cs as [|p cs IH]; intros ch L C; cbn [fold_left]; [exact C|].
+  inversion L as [|? ? (e & Ue & V) Lr]; subst. apply IH; [exact Lr|].
+  rewrite (valid_sym e p V). apply cache_receive_ok; assumption.
+Qed.
+
+Lemma update_all_ok o l : lst_ok l -> lst_ok (map (phi_update N o) l).
+Proof.
+  unfold lst_ok. intro L. apply Forall_map. revert L. apply Forall_impl.
+  intros p (e & Ue & V). exists e. split; [exact Ue|apply update_valid; exact V].
+Qed.
+
+Lemma snoc_ok l e p : lst_ok l -> U e -> valid e p ->
+  lst_ok (l ++ [p]) /\
+  (forall s, get_phi l s <> None -> get_phi (l ++ [p]) s <> None) /\
+  get_phi (l ++ [p]) (sym e) <> None.
+Proof.
+  intros L Ue V. split; [|split].
+  - apply Forall_app. split; [exact L|]. constructor; [|constructor]. exists e. split; assumption.
+  - intros s G. rewrite get_phi_app. destruct (get_phi l s); congruence.
+  - rewrite get_phi_app. destruct (get_phi l (sym e)); [congruence|].
+    unfold get_phi. cbn [find]. rewrite (valid_sym e p V), String.eqb_refl. congruence.
+Qed.
+
+Lemma co_step_ok l ch en : lst_ok l -> cache_ok ch -> U (fst en) ->
+  exists l1 ch1, co_step (Some l, ch) en = (Some l1, ch1) /\ lst_ok l1 /\ cache_ok ch1 /\
+    (forall s, get_phi l s <> None -> get_phi l1 s <> None) /\
+    get_phi l1 (sym (fst en)) <> None.
+Proof.
+  intros L C Uen. unfold co_step.
+  destruct (cache_remove_ok (sym (fst en)) ch C) as [R1 R2].
+  destruct (cache_remove (sym (fst en)) ch) as [o ch1]. cbn [fst snd] in R1, R2.
+  destruct o as [p|].
+  - destruct (R2 p eq_refl) as (e & Ue & Hs & V).
+    destruct (snoc_ok l e p L Ue V) as (S1 & S2 & S3).
+    exists (l ++ [p]), ch1. split; [reflexivity|]. split; [exact S1|]. split; [exact R1|].
+    split; [exact S2|]. rewrite Hs. exact S3.
+  - unfold add_const. destruct (get_phi l (sym (fst en))) as [q|] eqn:G.
+    + exists l, ch1. split; [reflexivity|]. split; [exact L|]. split; [exact R1|].
+      split; [intros s X; exact X|]. rewrite G. congruence.
+    + destruct (fresh_valid (fst en) (U_ok _ Uen)) as (p & Ep & V). rewrite Ep.
+      destruct (snoc_ok l (fst en) p L Uen V) as (S1 & S2 & S3).
+      exists (l ++ [p]), ch1. split; [reflexivity|]. split; [exact S1|]. split; [exact R1|].
+      split; [exact S2|exact S3].
+Qed.
+
+Lemma checkout_ok : forall (c : bcomp) l ch, (forall en, In en c -> U (fst en)) -> lst_ok l -> cache_ok ch ->
+  exists l' ch', fold_left co_step c (Some l, ch) = (Some l', ch') /\ lst_ok l' /\ cache_ok ch' /\
+    (forall s, get_phi l s <> None -> get_phi l' s <> None) /\
+    (forall en, In en c -> get_phi l' (sym (fst en)) <> None).
+Proof.
+  induction c as [|en c IH]; intros l ch HU L C; cbn [fold_left].
+  - exists l, ch. split; [reflexivity|]. split; [exact L|]. split; [exact C|].
+    split; [intros s X; exact X|]. intros en [].
+  - destruct (co_step_ok l ch en L C (HU en (or_introl eq_refl))) as (l1 & ch1 & E1 & L1 & C1 & M1 & G1).
+    rewrite E1.
+    destruct (IH l1 ch1 (fun en' H => HU en' (or_intror H)) L1 C1) as (l' & ch' & E & L' & C' & M & G).
+    exists l', ch'. split; [exact E|]. split; [exact L'|]. split; [exact C'|].
+    split; [intros s X; apply M, M1, X|].
+    intros en' [<-|Hin]; [apply M, G1|apply G, Hin].
+Qed.
+
+(* one call: same result as the stateless function, and the cache stays canonical *)
+Lemma call_ok ch r : cache_ok ch -> (forall en, In en (rq_comp r) -> U (fst en)) ->
+  fst (gen_call N ch r) = stateless N r /\ cache_ok (snd (gen_call N ch r)).
+Proof.
+  intros C HU. unfold gen_call, gen_step, stateless, brain.
+  destruct r as [c oreq base charge carrier]. cbn [rq_comp rq_order rq_base rq_charge rq_carrier] in *.
+  rewrite checkout_all_eq.
+  destruct (checkout_ok c [] ch HU (Forall_nil _) C) as (l & ch1 & E & L & C1 & _ & Cov).
+  destruct (checkout_ok c [] [] HU (Forall_nil _) (Forall_nil _)) as (l0 & ch0 & E0 & L0 & _ & _ & Cov0).
+  rewrite fresh_eq in E0 by reflexivity. cbn [fst] in E0. injection E0 as E0 _.
+  unfold constants_fresh. rewrite E0, E.
+  rewrite <- (brain_with_ext l l0 c oreq base charge carrier (lists_agree l l0 c L L0 HU Cov Cov0)).
+  destruct (brain_with N l c oreq base charge carrier) as [[peaks cs]|] eqn:EB; cbn [fst snd option_map].
+  - split; [reflexivity|]. destruct (brain_with_cs _ _ _ _ _ _ _ _ EB) as [o ->].
+    apply receive_all_ok; [apply update_all_ok; exact L|exact C1].
+  - split; [reflexivity|exact C1].
+Qed.
+
+Lemma run_ok : forall (reqs : list (request (F:=F))) ch, cache_ok ch ->
+  (forall r en, In r reqs -> In en (rq_comp r) -> U (fst en)) ->
+  cache_ok (fold_left (fun ch r => snd (gen_call N ch r)) reqs ch).
+Proof.
+  induction reqs as [|r reqs IH]; intros ch C HU; cbn [fold_left]; [exact C|].
+  apply IH.
+  - apply call_ok; [exact C|]. intros en Hen. apply (HU r en (or_introl eq_refl) Hen).
+  - intros r' en Hr Hen. apply (HU r' en (or_intror Hr) Hen).
+Qed.
+End Univ.
+
+(* ---- C08 ---- *)
+Definition univ (rs : list (request (F:=F))) (e : elem) : Prop :=
+  exists r en, In r rs /\ In en (rq_comp r) /\ fst en = e.
+
+Theorem generator_pure : forall (reqs : list (request (F:=F))) r,
+  reqs_ok (r :: reqs) -> fst (gen_call N (gen_run N reqs) r) = stateless N r.
+Proof.
+  intros reqs r [H1 H2]. set (U := univ (r :: reqs)).
+  assert (U_ok : forall e, U e -> brain_elem_ok e = true).
+  { intros e (r' & en & Hr & Hen & <-). apply (H1 r' en Hr Hen). }
+  assert (U_inj : forall e e', U e -> U e' -> sym e = sym e' -> e = e').
+  { intros e e' (r1 & en1 & Hr1 & Hen1 & <-) (r2 & en2 & Hr2 & Hen2 & <-) Hs.
+    apply (H2 r1 r2 en1 en2 Hr1 Hr2 Hen1 Hen2 Hs). }
+  assert (C : cache_ok U (gen_run N reqs)).
+  { unfold gen_run. apply (run_ok U U_ok U_inj); [constructor|].
+    intros r' en Hr Hen. exists r', en. split; [right; exact Hr|]. split; [exact Hen|reflexivity]. }
+  apply (call_ok U U_ok U_inj _ r C).
+  intros en Hen. exists r, en. split; [left; reflexivity|]. split; [exact Hen|reflexivity].
+Qed.
+
+Corollary history_independent : forall (reqs reqs' : list (request (F:=F))) r,
+  reqs_ok (r :: reqs) -> reqs_ok (r :: reqs') ->
+  fst (gen_call N (gen_run N reqs) r) = fst (gen_call N (gen_run N reqs') r).
+Proof.
+  intros reqs reqs' r H H'. rewrite (generator_pure reqs r H), (generator_pure reqs' r H'). reflexivity.
+Qed.
+
+End Cache.
+
